@@ -30,6 +30,29 @@ func init() {
 		},
 	})
 	register(&Property{
+		ID: "C08",
+		Explanation: "Decides structural necessary conditions of `Compile never panics, never loops, never returns holes`: (R1) every lexer loop that reads input has no feasible cycle once read() returns the end-of-input sentinel (constant propagation of 0 through the loop, folding of the pure character predicates); (R2) every explicit panic reachable from Compile is the default of an exhaustive switch, the fall-out of a complete type switch, or in a frozen trusted table; (R3) no parse function's (nil, index, nil) return reaches a conversion or dereference without a nil test; (R4) every index into the regex pattern string and into the filtered expression-token slice is dominated by a comparison with len, with the entry-parameter obligation discharged at every call site; (R6) TokenType.PP is exhaustive and error constructors never get a nil token; (R7) the generator's and checker's type switches turn an unmatched or nil node into an error. " +
+			"Does NOT decide stack depth on deeply nested input, memory/time of large unrolled loops (`exactly 1000000000 'a'`), nor the sentinel discipline of the token parser beyond R3 (thorough-tier rule R5).",
+		Assumptions: append([]string{"tokens always ends in an EOF token and consumeIgnoreableTokens never steps past it (axioms A1, A2)", "bufio.Reader's end of input is sticky (A3)"}, commonAssumptions...),
+		Rules: []RuleFn{
+			{Name: "C08.R1", Run: func(c *Ctx) { ruleEOFWorld(c, "C08.R1") }},
+			{Name: "C08.R2", Run: func(c *Ctx) {
+				rulePanicInventory(c, "C08.R2", c.compileRoots(), []string{"ast", "bytecode", "libvore", "ds"}, map[string]string{
+					"(*ast.Lexer).unread": "guards the position stack; reached only with amount=1 after at least one rune was read in the current token (value-level invariant of the state machine)",
+					"ast.HexToAscii":      "ParseInt on two runes that the only call sites have just tested with IsHex",
+				}, 4)
+			}},
+			{Name: "C08.R3", Run: func(c *Ctx) {
+				ruleNilSuccess(c, "C08.R3", map[string]string{
+					"ast.parse_regexp_class_ranges<-parse_regexp_class_atom_string": "frozen exception: the callee returns nil only on ']', which the caller's loop condition (regexp[next_index] != ']') excludes for the first atom; the second call is nil-checked",
+				})
+			}},
+			{Name: "C08.R4", Run: func(c *Ctx) { ruleIndexGuards(c, "C08.R4") }},
+			{Name: "C08.R6", Run: func(c *Ctx) { ruleErrorsPrintable(c, "C08.R6") }},
+			{Name: "C08.R7", Run: func(c *Ctx) { ruleTypeSwitchTotal(c, "C08.R7") }},
+		},
+	})
+	register(&Property{
 		ID: "C11",
 		Explanation: "Decides that the evaluator implements the documented operator/coercion table: (R1) for every documented cell the leaf of executeBinaryExpr, extracted by partial evaluation over the tag domain (operator x operand types), reads both operands through the accessor of the left operand's type, applies the documented Go operator and builds the documented result type; the oracle is the Type Coersion table of docs/language/LanguageDetails.md, parsed on every run; " +
 			"(R2) the nine coercion accessors compute the documented conversions; (R3) the Pratt parser's binding powers give the documented precedence levels and left associativity; (R4) not/head/tail. " +
